@@ -24,6 +24,14 @@ wsf_memcpy(void *dst, const void *src, size_t n)
 	__CPROVER_assert(__CPROVER_w_ok(dst, n), "memcpy destination region writeable");
 	const uint8_t *s = (const uint8_t *) src;
 	uint8_t       *d = (uint8_t *) dst;
+#if WSF_MEMCPY_SLICE == 2
+	/* coarser variant for units that never look at the copied bytes: the whole
+	 * destination OBJECT is havocked (a heap block of its own in those units) */
+	if (n > 0) {
+		__CPROVER_havoc_object(d);
+	}
+	(void) s;
+#else
 	if (n > 0) {
 		size_t  off  = (size_t) __CPROVER_POINTER_OFFSET(d);
 		bool    here = (g_k >= off && g_k - off < n);
@@ -33,6 +41,7 @@ wsf_memcpy(void *dst, const void *src, size_t n)
 			d[g_k - off] = bk;
 		}
 	}
+#endif
 	return (dst);
 }
 #define memcpy(d, s, n) (__builtin_constant_p(n) ? (memcpy)((d), (s), (n)) : wsf_memcpy((d), (s), (n)))
